@@ -236,12 +236,14 @@ pub fn run(ctx: &Ctx) {
     print_checks(ctx);
     let n = ctx.n(5_000, 60_000);
     let cfg = gen::GenCfg::balanced();
+    let big = gen::GenCfg::big();
     ctx.proptest_tapes("determinism", n, 700, Via::Cli, Some(&custom), |t| {
         let src = if t.chance(1, 2) {
             ctx.label("many-key object program");
             many_key_program(t)
         } else {
-            let prog = gen::gen_prog(t, &cfg);
+            let which = if t.chance(1, 5) { ctx.label("big profile"); &big } else { &cfg };
+            let prog = gen::gen_prog(t, which);
             let rr = interp::run(&prog);
             if rr.is_discard() {
                 return None;
